@@ -486,6 +486,7 @@ type stepStats struct {
 	msgs, reached, nontrivial int
 	fullBlockRequested        bool // a getdata for a full block went to this peer (in-progress entry without collector)
 	inProgressMax             int
+	memInputs                 uint64 // gocoin's TxInputInMemory counter
 	txTrailing                int    // tx messages with bytes after a well-formed transaction that reached ParseTxNet
 	addrFlood                 uint64 // gocoin's BanAddrFlood counter
 	genuineAccepted           int    // genuine copies of a wanted block taken after another peer's corrupt copy
@@ -702,6 +703,7 @@ func runSeq(cs seqCase, st *stepStats) (err error) {
 		st.getdataPaused = common.CounterGet("GetDataPaused") + common.CounterGet("GetDataPauseExt")
 		st.blkQueued = common.CounterGet("NetBlock-Queued")
 		st.addrFlood = common.CounterGet("BanAddrFlood")
+		st.memInputs = common.CounterGet("TxInputInMemory")
 	}
 	harvestCounters()
 	runtime.ReadMemStats(&ms)
@@ -845,6 +847,13 @@ func genSeqCase(t *rapid.T) seqCase {
 		rest := g.sequence(8)
 		cs.Msgs = append(fl, rest...)
 		cs.Tags = append(g.tags, "addr_flood")
+		return cs
+	}
+	if cs.Peers == "" && cs.Queues == "" && g.chance(5) {
+		// taproot spends that reach script verification in the mempool (see taprootSpendScenario)
+		cs.Handshake, cs.Syncing = true, false
+		cs.Msgs = append(g.taprootSpendScenario(), g.sequence(6)...)
+		cs.Tags = append(g.tags, "taproot_spend")
 		return cs
 	}
 	if cs.Peers == "" && cs.Queues == "" && g.chance(4) {
@@ -1030,6 +1039,13 @@ func TestHandlerSequences(t *testing.T) {
 		}
 		if cs.Peers != "" && st.addrNewYES > 0 {
 			r.Class("addr/new_record_taken_near_the_limit")
+		}
+		if st.memInputs > 0 {
+			for _, tg := range cs.Tags {
+				if tg == "taproot_spend" {
+					r.Class("tx/taproot_spend_reached_mempool_script_check")
+				}
+			}
 		}
 		if st.txTrailing > 0 {
 			r.Class("c09/tx_with_trailing_bytes_offered")
